@@ -127,7 +127,9 @@ impl Message {
             return Err(RepeError::InvalidHeaderLength(buf.len()));
         }
         let header = Header::decode(&buf[..HEADER_SIZE])?;
-        let expected = HEADER_SIZE + header.query_length as usize + header.body_length as usize;
+        // `decode` checked 48 + query + body == length in u64; a total that does
+        // not fit `usize` cannot be present in `buf` either.
+        let expected = usize::try_from(header.length).unwrap_or(usize::MAX);
         if buf.len() < expected {
             return Err(RepeError::BufferTooSmall {
                 need: expected,
@@ -263,7 +265,8 @@ impl<'a> MessageView<'a> {
             return Err(RepeError::InvalidHeaderLength(buf.len()));
         }
         let header = Header::decode(&buf[..HEADER_SIZE])?;
-        let expected = HEADER_SIZE + header.query_length as usize + header.body_length as usize;
+        // See `Message::from_slice`: the checked total, saturated to `usize`.
+        let expected = usize::try_from(header.length).unwrap_or(usize::MAX);
         if buf.len() < expected {
             return Err(RepeError::BufferTooSmall {
                 need: expected,
